@@ -666,7 +666,7 @@ func (l *segment) current() ([]byte, error) {
 	}
 	l.currentSize = int64(sz)
 
-	if int64(sz) > l.maxSize {
+	if sz > uint64(l.maxSize) {
 		return nil, fmt.Errorf("record size out of range: max %d: got %d", l.maxSize, sz)
 	}
 
